@@ -1374,3 +1374,163 @@ func runPOPGUARD(c *Ctx) {
 		c.AnchorMissing("a pop of the last path entry in Cursor.Forward / Cursor.Backward")
 	}
 }
+
+// ---- DESCENTLAND -----------------------------------------------------------------------
+//
+// A descent that ends by pushing a child with a position at its far end ("a leaf: its last entry is the predecessor")
+// claims that nothing lies beyond that entry in the child — which is so only if the child's LAST link is nil. A nil
+// first link says nothing about the last one: an inner node may have no subtree before its first key and one after
+// its last.
+
+func init() {
+	Register(&Rule{
+		ID:    "DESCENTLAND",
+		Props: []string{"C10"},
+		Min:   0,
+		Doc: "in the Cursor methods, a push of a child node with a position computed from the child's own list lengths that ends the step (the method returns without continuing the descent through Min/Max) " +
+			"is reached only where the child's link beyond that position was found nil — a test of Link[k] for a constant k other than the far end does not discharge it.",
+		Run: runDESCENTLAND,
+	})
+}
+
+func runDESCENTLAND(c *Ctx) {
+	P := c.P
+	n := 0
+	for _, fn := range P.Funcs {
+		if fn.Pkg.Pkg.Path() != ir.MastPath || fn.Signature.Recv() == nil || !ir.IsPtrToNamed(fn.Signature.Recv().Type(), "Cursor") {
+			continue
+		}
+		for _, b := range fn.Blocks {
+			if ir.IsDead(b) {
+				continue
+			}
+			for idx, ins := range b.Instrs {
+				st, ok := ins.(*ssa.Store)
+				if !ok || !isCursorPath(st.Addr) {
+					continue
+				}
+				ap, ok := st.Val.(*ssa.Call)
+				if !ok {
+					continue
+				}
+				if bi, ok := ap.Call.Value.(*ssa.Builtin); !ok || bi.Name() != "append" || len(ap.Call.Args) != 2 {
+					continue
+				}
+				// the pushed literal: stores into the varargs array's element
+				sl, ok := ap.Call.Args[1].(*ssa.Slice)
+				if !ok {
+					continue
+				}
+				arr, ok := sl.X.(*ssa.Alloc)
+				if !ok || arr.Referrers() == nil {
+					continue
+				}
+				var nodeV, posV ssa.Value
+				for _, r := range *arr.Referrers() {
+					ia, ok := r.(*ssa.IndexAddr)
+					if !ok || ia.Referrers() == nil {
+						continue
+					}
+					for _, r2 := range *ia.Referrers() {
+						switch y := r2.(type) {
+						case *ssa.FieldAddr:
+							if y.Referrers() == nil {
+								continue
+							}
+							for _, r3 := range *y.Referrers() {
+								if fs, ok := r3.(*ssa.Store); ok && fs.Addr == ssa.Value(y) {
+									switch ir.FieldName(y.X.Type(), y.Field) {
+									case nodeFieldName:
+										nodeV = fs.Val
+									case posFieldName:
+										posV = fs.Val
+									}
+								}
+							}
+						case *ssa.Store:
+							// a whole struct value stored: the composite literal was built in a temporary
+							if ld, ok := y.Val.(*ssa.UnOp); ok && ld.Op == token.MUL {
+								if lit, ok := ld.X.(*ssa.Alloc); ok && lit.Referrers() != nil {
+									for _, r3 := range *lit.Referrers() {
+										fa, ok := r3.(*ssa.FieldAddr)
+										if !ok || fa.Referrers() == nil {
+											continue
+										}
+										for _, r4 := range *fa.Referrers() {
+											if fs, ok := r4.(*ssa.Store); ok && fs.Addr == ssa.Value(fa) {
+												switch ir.FieldName(fa.X.Type(), fa.Field) {
+												case nodeFieldName:
+													nodeV = fs.Val
+												case posFieldName:
+													posV = fs.Val
+												}
+											}
+										}
+									}
+								}
+							}
+						}
+					}
+				}
+				if nodeV == nil || posV == nil {
+					continue
+				}
+				if _, isK := ir.ConstInt(posV); isK {
+					continue // position 0 / a constant: the descent continues from the near end
+				}
+				// position computed from the pushed node's own lengths?
+				ps := ir.Sym(posV)
+				ns := ir.Sym(ir.ResolveCell(nodeV))
+				if !strings.Contains(ps, "len(") || !strings.Contains(ps, ns) {
+					continue
+				}
+				// terminal: the method returns in this block without another call of a Cursor method
+				terminal := false
+				for _, later := range b.Instrs[idx+1:] {
+					if call, ok := later.(*ssa.Call); ok {
+						if f := ir.Callee(call.Call); f != nil && f.Signature.Recv() != nil && ir.IsPtrToNamed(f.Signature.Recv().Type(), "Cursor") {
+							break
+						}
+					}
+					if _, ok := later.(*ssa.Return); ok {
+						terminal = true
+					}
+				}
+				if !terminal {
+					continue
+				}
+				n++
+				farNil := ir.FlowFact(st, func(f ir.Fact) bool {
+					tv, tnn, ok := ir.NilTest(f.Cond)
+					if !ok || f.Truth == tnn {
+						return false
+					}
+					ld, ok := ir.ResolveCell(tv).(*ssa.UnOp)
+					if !ok || ld.Op != token.MUL {
+						return false
+					}
+					ia, ok := ld.X.(*ssa.IndexAddr)
+					if !ok {
+						return false
+					}
+					base, fld, ok := nodeSliceRoot(ia.X)
+					if !ok || fld != "Link" || ir.Sym(ir.ResolveCell(base)) != ns {
+						return false
+					}
+					_, isK := ir.ConstInt(ia.Index)
+					return !isK // a slot named relative to the node's length (the far end), not a fixed near slot
+				}, func(ssa.Instruction) bool { return false })
+				pos := P.InstrPos(st)
+				if farNil {
+					c.OK(pos, "descent ends on a far-end entry of the pushed child in "+ir.FuncName(fn), "the child's link beyond it was found nil", false)
+				} else {
+					c.Violation(fn, pos, "descent ends inside a child whose far link was not found nil",
+						"the step pushes the child with a position at its far end and returns, without having found the child's last link nil: an inner node that has no subtree before its first key but one after its last is taken for a leaf, and that whole subtree is skipped")
+				}
+			}
+		}
+	}
+	if n == 0 {
+		c.OK("-", "no descent ends by pushing a child at a far-end position", "nothing to check", true)
+	}
+}
